@@ -3,6 +3,8 @@ package main
 // C19: bencode round trip and decoder safety against the real frontend/http/bencode.
 
 import (
+	"bytes"
+	"time"
 	"fmt"
 	"runtime"
 	"sort"
@@ -90,6 +92,9 @@ func toGo(r *Rng, v interface{}) interface{} {
 		for i, e := range x {
 			out[i] = toGo(r, e)
 		}
+		if t := typedList(r, out); t != nil {
+			return t
+		}
 		if r.Bool() {
 			return bencode.List(out)
 		}
@@ -108,8 +113,65 @@ func toGo(r *Rng, v interface{}) interface{} {
 			return []byte(x)
 		}
 		return x
+	case int64:
+		// every Go integer type the encoder accepts, whenever the value fits it exactly
+		var cands []interface{}
+		cands = append(cands, x)
+		if int64(int(x)) == x {
+			cands = append(cands, int(x))
+		}
+		if x >= -1<<15 && x < 1<<15 {
+			cands = append(cands, int16(x))
+		}
+		if x >= -1<<31 && x < 1<<31 {
+			cands = append(cands, int32(x))
+		}
+		if x >= 0 {
+			cands = append(cands, uint64(x), uint(x))
+			if x < 1<<16 {
+				cands = append(cands, uint16(x))
+			}
+			if x < 1<<32 {
+				cands = append(cands, uint32(x))
+			}
+		}
+		if x > -9e9 && x < 9e9 { // a duration of x seconds (encoded as seconds)
+			cands = append(cands, time.Duration(x)*time.Second)
+		}
+		return cands[r.Intn(len(cands))]
 	}
 	return v
+}
+
+// typedLists: a list of strings may be handed over as []string, a list of dictionaries as []bencode.Dict
+func typedList(r *Rng, out []interface{}) interface{} {
+	if len(out) == 0 || r.Bool() {
+		return nil
+	}
+	allS, allD := true, true
+	for _, e := range out {
+		if _, ok := e.(string); !ok {
+			allS = false
+		}
+		if _, ok := e.(bencode.Dict); !ok {
+			allD = false
+		}
+	}
+	if allS {
+		l := make([]string, len(out))
+		for i, e := range out {
+			l[i] = e.(string)
+		}
+		return l
+	}
+	if allD {
+		l := make([]bencode.Dict, len(out))
+		for i, e := range out {
+			l[i] = e.(bencode.Dict)
+		}
+		return l
+	}
+	return nil
 }
 
 var intBoundary = []int64{0, 1, -1, 9, 10, -10, 255, 256, 1 << 31, -(1 << 31), 1<<63 - 1, -(1 << 63), 1<<63 - 2, -(1<<63 - 1), 1800, 4096}
@@ -245,6 +307,28 @@ func decObs(in []byte) (obs string) {
 	return "ok " + canonB(v)
 }
 
+// benc.stream: the streaming API (NewDecoder / Decode) on a concatenation of values (and whatever follows them)
+func emitStream(c *Ctx, in []byte) {
+	obs := func() (o string) {
+		defer func() {
+			if p := recover(); p != nil {
+				o = "PANIC " + strings.Fields(fmt.Sprint(p))[0]
+			}
+		}()
+		d := bencode.NewDecoder(bytes.NewReader(in))
+		var vs []string
+		for i := 0; i < 8; i++ {
+			v, err := d.Decode()
+			if err != nil {
+				break
+			}
+			vs = append(vs, canonB(v))
+		}
+		return "vals=[" + strings.Join(vs, ";") + "]"
+	}()
+	c.Emit("benc.stream in="+hx(in), obs)
+}
+
 func emitDec(c *Ctx, in []byte, kind string) {
 	c.Kind("dec." + kind)
 	c.Emit("benc.dec in="+hx(in), decObs(in))
@@ -275,6 +359,10 @@ func emitRt(c *Ctx, tree interface{}) {
 }
 
 func replayC19(c *Ctx, op string, a map[string]string) {
+	if op == "benc.stream" {
+		emitStream(c, unhx(a["in"]))
+		return
+	}
 	switch op {
 	case "benc.dec":
 		emitDec(c, unhx(a["in"]), "replay")
@@ -328,6 +416,19 @@ func runC19(c *Ctx) {
 		emitDec(c, []byte(strings.Repeat("d1:a", d)+"i1e"+strings.Repeat("e", d)), "deep")
 	}
 	for i := 0; i < c.N; i++ {
+		if i%7 == 0 { // the streaming decoder on several values back to back, possibly cut or followed by junk
+			var in []byte
+			for k := 0; k < 1+r.Intn(4); k++ {
+				in = append(in, refEnc(genTree(r, 1+r.Intn(3), false))...)
+			}
+			switch r.Intn(4) {
+			case 0:
+				in = in[:r.Intn(len(in)+1)]
+			case 1:
+				in = append(in, r.Bytes(1+r.Intn(3))...)
+			}
+			emitStream(c, in)
+		}
 		switch r.Intn(10) {
 		case 0, 1, 2, 3:
 			emitRt(c, genTree(r, 1+r.Intn(6), big))
